@@ -38,6 +38,7 @@ def run(chk):
   merge_and_product(chk, 'C01-R5')
   from rules.c11 import functional_calls
   functional_calls(chk, 'C01-R5')
+  K.inclusion_is_unnesting(chk, 'C01-R5')
 
   chk.rule('C01-R6', 'composability: the SQL of an infix operator and of a '
            'combine is one parenthesised group on every path out of '
@@ -199,8 +200,9 @@ def merge_and_product(chk, rid):
       continue
     (t1, i1), (t2, i2) = pr_.gens
     e = pr_.elt
+    cjv = FnView(repo, 'parse.DisjunctiveNormalForm.ConjunctionOfDnfs')
     rec = any(isinstance(c, ast.Call) and call_tail(c) == 'ConjunctionOfDnfs'
-              for it_ in (i1, i2) for c in ast.walk(it_))
+              for it_ in (i1, i2) for c in ast.walk(cjv.expand(it_)))
     if isinstance(e, ast.BinOp) and isinstance(e.op, ast.Add) and isinstance(t1, ast.Name) and \
         isinstance(t2, ast.Name) and {dotted(e.left), dotted(e.right)} == {t1.id, t2.id} and \
         t1.id != t2.id and rec:
@@ -230,6 +232,20 @@ def merge_and_product(chk, rid):
          'disjunction of DNFs is the concatenation of the alternatives',
          'alternatives of a disjunction are not all kept', fi=dj)
   r2r = repo.func('parse.DisjunctiveNormalForm.RuleToRules')
+  # every rule body goes through PropositionToDNF - it also flattens nested
+  # conjunctions (parenthesised groups), which the later stages do not accept
+  r2v = FnView(repo, 'parse.DisjunctiveNormalForm.RuleToRules')
+  dnf_calls = [n for n, c in r2v.all_calls() if call_tail(c) == 'PropositionToDNF']
+  def no_body(e, val):
+    return isinstance(e, ast.Compare) and len(e.ops) == 1 and const_str(e.left) == 'body' and (
+        (isinstance(e.ops[0], ast.NotIn) and val) or (isinstance(e.ops[0], ast.In) and not val))
+  body_rets = [n for n, r in r2v.returns()
+               if not any(no_body(e, val) for e, val in r2v.guards(n))]
+  chk.ob(rid, bool(dnf_calls) and all(r2v.cfg.must_pass_before(n, dnf_calls) for n in body_rets),
+         None, 'every rule with a body is rewritten through PropositionToDNF',
+         'a path of RuleToRules returns the rule without normalising its body: '
+         'nested conjunctions (parenthesised groups of conjuncts) survive and are '
+         'rejected or mistranslated later', fi=r2r)
 
   def deepcopies(fi_, depth=2):
     n_ = 0
